@@ -926,7 +926,7 @@ def server_thread_directed(ctx, point: tuple[str, int], y: str) -> str | None:
     ct = threading.Thread(target=cleanup, daemon=True)
     ct.start()
     ct.join(30)
-    if why is None and t.ident is not None:
+    if why is None and notes.get("start") == "returned":  # (start() returned: the thread object is fully started and may be joined)
         t.join(timeout=20)
         if t.is_alive():
             why = f"the server thread is still alive after shutdown + join ({y} during start-up, paused before {point})"
